@@ -581,6 +581,7 @@ func gen(c *ex.Ctx) {
 		fmt.Fprintf(&sb, "/-- The loop empties its own event channel (non-blocking select) before every main select. -/\ndef loopDrainsFirst : Bool := %v\n", drainFirst)
 	}
 
+	genDcsFacts(c, &sb)
 	sb.WriteString("\nend VaxisModel.Gen.TermModes\n")
 	c.Write("TermModes.lean", sb.String())
 }
